@@ -150,10 +150,21 @@ Proof.
   replace (c =? codes_OK) with false by (symmetry; apply Z.eqb_neq; exact Hc). reflexivity.
 Qed.
 
+Lemma default_status_some : forall o, status_err (default_status o) = Some (default_status o).
+Proof. intros o. unfold default_status. destruct (is_permanent o); reflexivity. Qed.
+
+(* an error whose explicit status says OK is reported like an error without a status *)
+Lemma status_mapping_ok_coded : forall o ri, from_error o = Some (0, ri) ->
+  get_status_from_error o = Some (default_status o).
+Proof.
+  intros o ri H. unfold get_status_from_error. rewrite H. cbn [fst]. change (0 =? codes_OK) with true. cbn iota.
+  apply default_status_some.
+Qed.
+
 Lemma status_mapping_other : forall o, from_error o = None ->
   get_status_from_error o = Some (if is_permanent o then codes_Internal else codes_Unavailable, None).
 Proof.
-  intros o H. unfold get_status_from_error. rewrite H. destruct (is_permanent o); reflexivity.
+  intros o H. unfold get_status_from_error. rewrite H. apply default_status_some.
 Qed.
 
 Lemma internal_not_retryable : forall b, spec_grpc_retryable codes_Internal b = false.
@@ -202,18 +213,18 @@ Qed.
 (* ---------------------------------------------------------------------------------------------
    the hop
    --------------------------------------------------------------------------------------------- *)
-Lemma wire_some : forall o, o <> Accept -> ok_coded o = false ->
+Lemma wire_some : forall o, o <> Accept ->
   exists c ri, c <> 0 /\ get_status_from_error o = Some (c, ri).
 Proof.
-  intros o Ho Hk. destruct o as [| | |c ri w|[c|] ri w]; try congruence.
-  - exists codes_Unavailable, None. split; [discriminate|reflexivity].
-  - exists codes_Internal, None. split; [discriminate|reflexivity].
-  - cbn in Hk. apply Z.eqb_neq in Hk. exists c, ri. split; [exact Hk|].
-    apply status_mapping_explicit; [reflexivity|exact Hk].
-  - cbn in Hk. apply Z.eqb_neq in Hk. exists c, ri. split; [exact Hk|].
-    apply status_mapping_explicit; [reflexivity|exact Hk].
-  - destruct w; [exists codes_Unavailable, None | exists codes_Internal, None | exists codes_Unavailable, None];
-      (split; [discriminate|reflexivity]).
+  intros o Ho.
+  assert (D : exists c ri, c <> 0 /\ Some (default_status o) = Some (c, ri)).
+  { unfold default_status. destruct (is_permanent o);
+      [exists codes_Internal, None | exists codes_Unavailable, None]; (split; [discriminate|reflexivity]). }
+  destruct (from_error o) as [[c ri]|] eqn:E.
+  - destruct (Z.eq_dec c 0) as [->|Hc].
+    + rewrite (status_mapping_ok_coded o ri E). exact D.
+    + exists c, ri. split; [exact Hc|]. apply status_mapping_explicit; assumption.
+  - rewrite (status_mapping_other o E). exact D.
 Qed.
 
 Definition http_retry_after (st : Z) (ri : option Z) : option Z :=
@@ -284,7 +295,7 @@ Qed.
 
 Definition tables_differ (c : Z) (ri : option Z) : bool := (c =? 8) && negb (has_ri ri).
 
-Lemma meaning_commutes_l : forall a n o, a <> AuthFail -> (0 < n)%N -> o <> Accept -> ok_coded o = false ->
+Lemma meaning_commutes_l : forall a n o, a <> AuthFail -> (0 < n)%N -> o <> Accept ->
   exists c ri, get_status_from_error o = Some (c, ri) /\ c <> 0 /\
     class_of (h_verdict (hop Grpc a n o)) = spec_class_grpc c ri /\
     class_of (h_verdict (hop HttpPb a n o)) = class_of (h_verdict (hop HttpJson a n o)) /\
@@ -293,7 +304,7 @@ Lemma meaning_commutes_l : forall a n o, a <> AuthFail -> (0 < n)%N -> o <> Acce
     (tables_differ c ri = true ->
        class_of (h_verdict (hop Grpc a n o)) = CPermanent /\ class_of (h_verdict (hop HttpPb a n o)) = CRetryable).
 Proof.
-  intros a n o Ha Hn Ho Hk. destruct (wire_some o Ho Hk) as (c & ri & Hc & Hw).
+  intros a n o Ha Hn Ho. destruct (wire_some o Ho) as (c & ri & Hc & Hw).
   exists c, ri. split; [exact Hw|]. split; [exact Hc|].
   rewrite (hop_grpc_class a n o c ri Ha Hn Ho Hw Hc).
   rewrite (hop_http_class HttpPb a n o c ri) by (try discriminate; assumption).
@@ -327,12 +338,12 @@ Lemma outcome_eq_Accept_dec : forall o, {o = Accept} + {o <> Accept}.
 Proof. intros o. destruct o; [left; reflexivity | right; discriminate ..]. Qed.
 
 (* success iff accepted *)
-Lemma success_iff_accepted_l : forall t a n o, a <> AuthFail -> (0 < n)%N -> ok_coded o = false ->
+Lemma success_iff_accepted_l : forall t a n o, a <> AuthFail -> (0 < n)%N ->
   (h_verdict (hop t a n o) = Success <-> o = Accept).
 Proof.
-  intros t a n o Ha Hn Hk. split.
+  intros t a n o Ha Hn. split.
   - intros Hs. destruct (outcome_eq_Accept_dec o) as [E|E]; [exact E|exfalso].
-    destruct (wire_some o E Hk) as (c & ri & Hc & Hw).
+    destruct (wire_some o E) as (c & ri & Hc & Hw).
     assert (Hcl : class_of (h_verdict (hop t a n o)) = CSuccess) by (rewrite Hs; reflexivity).
     destruct t.
     + rewrite (hop_grpc_class a n o c ri Ha Hn E Hw Hc) in Hcl. unfold spec_class_grpc in Hcl.
@@ -407,31 +418,20 @@ Definition expected_client_status (rq : request) : Z :=
   else if ct_other (r_ct rq) then 415
   else 400.
 
-(* refused before the OTLP handler with a Content-Type that is not an OTLP media type: errorHandler's fallback *)
-Definition answered_by_fallback (rq : request) : bool :=
-  ct_other (r_ct rq) && (auth_fails (r_auth rq) || enc_rejected_early (r_enc rq)).
-
 Lemma client_error_not_called : forall rq o, client_error rq = true -> fst (recv_http rq o) = false.
 Proof.
   intros [a e p c b] o H. unfold client_error in H. cbn [r_auth r_enc r_post r_ct r_body] in H.
   destruct a, e, p, c, b; cbn in H; try discriminate; reflexivity.
 Qed.
 
-Lemma client_error_status : forall rq o, client_error rq = true -> answered_by_fallback rq = false ->
+Lemma client_error_status : forall rq o, client_error rq = true ->
   rs_status (snd (recv_http rq o)) = expected_client_status rq /\
   400 <= rs_status (snd (recv_http rq o)) <= 499 /\
   rs_retry_after (snd (recv_http rq o)) = None.
 Proof.
-  intros [a e p c b] o H F. unfold client_error in H. unfold answered_by_fallback in F.
-  cbn [r_auth r_enc r_post r_ct r_body] in H, F.
-  destruct a, e, p, c, b; cbn in H, F; try discriminate; vm_compute; repeat split; discriminate.
-Qed.
-
-Lemma client_error_fallback_500 : forall rq o, answered_by_fallback rq = true ->
-  recv_http rq o = (false, mkResp 500 None (Some 13)).
-Proof.
-  intros [a e p c b] o F. unfold answered_by_fallback in F. cbn [r_auth r_enc r_post r_ct r_body] in F.
-  destruct a, e, c; cbn in F; try discriminate; reflexivity.
+  intros [a e p c b] o H. unfold client_error in H.
+  cbn [r_auth r_enc r_post r_ct r_body] in H.
+  destruct a, e, p, c, b; cbn in H; try discriminate; vm_compute; repeat split; discriminate.
 Qed.
 
 Lemma well_formed_not_client_error : forall t a n, a <> AuthFail -> client_error (exporter_request t a n) = false.
@@ -506,18 +506,6 @@ End Delivery.
 (* ---------------------------------------------------------------------------------------------
    refutations (each witness is a finding; see props/C15/findings.json)
    --------------------------------------------------------------------------------------------- *)
-Lemma success_iff_accepted_refuted_l : exists t a n o,
-  a <> AuthFail /\ (0 < n)%N /\ o <> Accept /\ h_called (hop t a n o) = true /\ h_verdict (hop t a n o) = Success.
-Proof.
-  exists Grpc, NoAuth, 1%N, (CustomStatus (Some 0) None WNone).
-  repeat split; try discriminate; reflexivity.
-Qed.
-
-Lemma client_error_status_refuted_l : exists rq o,
-  client_error rq = true /\ rs_status (snd (recv_http rq o)) = 500 /\ expected_client_status rq = 401.
-Proof.
-  exists (mkReq AuthFail EncGood true CtOther (Some 1%N)), Accept. repeat split; reflexivity.
-Qed.
 
 Lemma grpc_malformed_invalid_argument_refuted_l : exists a o,
   snd (recv_grpc a None o) <> Some (codes_InvalidArgument, None) /\
@@ -548,16 +536,16 @@ Qed.
 Lemma authenticator_transparent_l : forall t n o, hop t AuthOK n o = hop t NoAuth n o.
 Proof. intros t n o. destruct t; reflexivity. Qed.
 
-Lemma status_mapping_l : forall o, o <> Accept -> ok_coded o = false ->
+Lemma status_mapping_l : forall o, o <> Accept ->
   match from_error o with
-  | Some s => get_status_from_error o = Some s
-  | None => get_status_from_error o = Some (if is_permanent o then codes_Internal else codes_Unavailable, None)
+  | Some (c, ri) => get_status_from_error o = if c =? 0 then Some (default_status o) else Some (c, ri)
+  | None => get_status_from_error o = Some (default_status o)
   end.
 Proof.
-  intros o Ho Hk. destruct (from_error o) as [[c ri]|] eqn:E.
-  - apply status_mapping_explicit; [exact E|].
-    destruct o as [| | |c' ri' w|[c'|] ri' w]; cbn in E; try discriminate; inversion E; subst;
-      cbn in Hk; apply Z.eqb_neq in Hk; exact Hk.
+  intros o Ho. destruct (from_error o) as [[c ri]|] eqn:E.
+  - destruct (Z.eqb_spec c 0) as [->|Hc].
+    + apply (status_mapping_ok_coded o ri E).
+    + apply status_mapping_explicit; assumption.
   - apply status_mapping_other. exact E.
 Qed.
 
@@ -609,13 +597,13 @@ Section ShutdownLib.
   Proof. intros t a n o. destruct t; split; reflexivity. Qed.
 
   (* the sender sees success iff the consumer was handed the data and accepted it, whatever the phase *)
-  Lemma success_iff_consumer_accepted_l : forall ph t a n o, a <> AuthFail -> (0 < n)%N -> ok_coded o = false ->
+  Lemma success_iff_consumer_accepted_l : forall ph t a n o, a <> AuthFail -> (0 < n)%N ->
     (h_verdict (hop_at_lib lib_drains ph t a n o) = Success <->
      (h_called (hop_at_lib lib_drains ph t a n o) = true /\ o = Accept)).
   Proof.
-    intros ph t a n o Ha Hn Hk.
+    intros ph t a n o Ha Hn.
     assert (R : h_verdict (hop t a n o) = Success <-> (h_called (hop t a n o) = true /\ o = Accept)).
-    { rewrite (success_iff_accepted_l t a n o Ha Hn Hk). split.
+    { rewrite (success_iff_accepted_l t a n o Ha Hn). split.
       - intros ->. rewrite (hop_accept t a n Ha Hn). split; reflexivity.
       - intros [_ E]. exact E. }
     destruct ph.
@@ -638,4 +626,115 @@ Lemma cut_breaks_success_iff_accepted_l : forall lib_drains t a n, a <> AuthFail
 Proof.
   intros lib t a n Ha Hn H. unfold hop_at_lib. rewrite H, (hop_accept t a n Ha Hn).
   destruct t; split; reflexivity.
+Qed.
+
+(* ---------------------------------------------------------------------------------------------
+   truncated bodies; a slow consumer and the HTTP server's timeouts
+   --------------------------------------------------------------------------------------------- *)
+Lemma truncated_body_rejected_l : forall a p c b o,
+  fst (recv_http (mkReq a EncTruncated p c b) o) = false /\
+  rs_status (snd (recv_http (mkReq a EncTruncated p c b) o)) = expected_client_status (mkReq a EncTruncated p c b) /\
+  400 <= rs_status (snd (recv_http (mkReq a EncTruncated p c b) o)) <= 499.
+Proof.
+  intros a p c b o.
+  assert (H : client_error (mkReq a EncTruncated p c b) = true).
+  { unfold client_error. cbn [r_auth r_enc r_post r_ct r_body enc_good negb]. rewrite orb_true_r. reflexivity. }
+  split; [apply client_error_not_called; exact H|].
+  destruct (client_error_status (mkReq a EncTruncated p c b) o H) as (E & R & _). split; assumption.
+Qed.
+
+(* ToServer copies every configured timeout into the server field of the same name (obligation against the dump) *)
+Lemma to_server_identity_l : forall cfg, to_server cfg = cfg.
+Proof. intros [r rh w i]. reflexivity. Qed.
+
+Lemma slow_consumer_within_write_timeout_l : forall cfg d t a n o,
+  to_write cfg <= 0 \/ d < to_write cfg -> hop_slow cfg d t a n o = hop t a n o.
+Proof.
+  intros cfg d t a n o H. unfold hop_slow. rewrite to_server_identity_l.
+  assert (E : response_deliverable cfg d = true).
+  { unfold response_deliverable. apply orb_true_iff. destruct H as [H|H]; [left; apply Z.leb_le|right; apply Z.ltb_lt]; exact H. }
+  rewrite E. destruct t; reflexivity.
+Qed.
+
+(* the inherent limit: a consumer that accepts after the write timeout is reported as a (retryable) failure *)
+Lemma slow_consumer_beyond_write_timeout_l : forall cfg d t a n, t <> Grpc -> a <> AuthFail -> (0 < n)%N ->
+  0 < to_write cfg <= d ->
+  hop_slow cfg d t a n Accept = mkHop true Retryable None.
+Proof.
+  intros cfg d t a n Ht Ha Hn [Hw Hd]. unfold hop_slow. rewrite to_server_identity_l.
+  assert (E : response_deliverable cfg d = false).
+  { unfold response_deliverable. apply orb_false_iff. split; [apply Z.leb_gt|apply Z.ltb_ge]; lia. }
+  rewrite E, (hop_accept t a n Ha Hn). destruct t; try congruence; reflexivity.
+Qed.
+
+(* ---------------------------------------------------------------------------------------------
+   histories; totality of the request classification
+   --------------------------------------------------------------------------------------------- *)
+Lemma hop_called_iff : forall t a n o,
+  h_called (hop t a n o) = negb (auth_fails a) && negb (n =? 0)%N.
+Proof.
+  intros t a n o. destruct a.
+  - destruct n as [|p]; [rewrite (hop_empty t NoAuth o) by discriminate; reflexivity|].
+    destruct (outcome_eq_Accept_dec o) as [->|E].
+    + rewrite (hop_accept t NoAuth (Npos p)) by (try discriminate; reflexivity). reflexivity.
+    + destruct (wire_some o E) as (c & ri & Hc & Hw). destruct t.
+      * rewrite (hop_grpc_eq NoAuth (Npos p) o) by (try discriminate; try reflexivity; assumption). reflexivity.
+      * rewrite (hop_http_eq HttpPb NoAuth (Npos p) o c ri) by (try discriminate; try reflexivity; assumption). reflexivity.
+      * rewrite (hop_http_eq HttpJson NoAuth (Npos p) o c ri) by (try discriminate; try reflexivity; assumption). reflexivity.
+  - rewrite authenticator_transparent_l.
+    destruct n as [|p]; [rewrite (hop_empty t NoAuth o) by discriminate; reflexivity|].
+    destruct (outcome_eq_Accept_dec o) as [->|E].
+    + rewrite (hop_accept t NoAuth (Npos p)) by (try discriminate; reflexivity). reflexivity.
+    + destruct (wire_some o E) as (c & ri & Hc & Hw). destruct t.
+      * rewrite (hop_grpc_eq NoAuth (Npos p) o) by (try discriminate; try reflexivity; assumption). reflexivity.
+      * rewrite (hop_http_eq HttpPb NoAuth (Npos p) o c ri) by (try discriminate; try reflexivity; assumption). reflexivity.
+      * rewrite (hop_http_eq HttpJson NoAuth (Npos p) o c ri) by (try discriminate; try reflexivity; assumption). reflexivity.
+  - rewrite hop_auth_fail. reflexivity.
+Qed.
+
+Definition reaches_consumer (s : send) : bool :=
+  let '(t, a, n, o) := s in negb (auth_fails a) && negb (n =? 0)%N.
+
+Fixpoint delivered_indices (h : list send) (i : nat) : list nat :=
+  match h with
+  | [] => []
+  | s :: r => (if reaches_consumer s then [i] else []) ++ delivered_indices r (S i)
+  end.
+
+Lemma history_l : forall h i,
+  fst (run_history h i) = delivered_indices h i /\
+  snd (run_history h i) = map (fun s => let '(t, a, n, o) := s in h_verdict (hop t a n o)) h.
+Proof.
+  induction h as [|[[[t a] n] o] r IH]; intros i; [split; reflexivity|].
+  cbn [run_history delivered_indices map]. destruct (IH (S i)) as [H1 H2].
+  destruct (run_history r (S i)) as [s v]. cbn [fst snd] in *. subst s v.
+  rewrite hop_called_iff. split; reflexivity.
+Qed.
+
+(* in a history, every send is judged on its own: success iff its own consumer call accepted *)
+Lemma history_success_l : forall h i k t a n o, nth_error h k = Some (t, a, n, o) -> a <> AuthFail -> (0 < n)%N ->
+  (nth_error (snd (run_history h i)) k = Some Success <-> o = Accept).
+Proof.
+  intros h i k t a n o Hk Ha Hn. destruct (history_l h i) as [_ ->].
+  rewrite nth_error_map, Hk. cbn [option_map]. rewrite <- (success_iff_accepted_l t a n o Ha Hn).
+  split; [intros E; inversion E; reflexivity|intros ->; reflexivity].
+Qed.
+
+(* a request is either a client error or it is handled: consumer called iff it has items, 200 iff accepted *)
+Lemma well_formed_request_handled_l : forall rq o, client_error rq = false ->
+  exists n, r_body rq = Some n /\
+    fst (recv_http rq o) = negb (n =? 0)%N /\
+    (rs_status (snd (recv_http rq o)) = 200 <-> ((n = 0)%N \/ o = Accept)).
+Proof.
+  intros [a e p c b] o H. unfold client_error in H. cbn [r_auth r_enc r_post r_ct r_body] in H.
+  destruct a, e, p, c, b as [n|]; cbn in H; try discriminate; exists n; (split; [reflexivity|]);
+    (destruct n as [|q]; [split; [reflexivity|split; [intros _; left; reflexivity|reflexivity]]|]);
+    (destruct (outcome_eq_Accept_dec o) as [->|E];
+     [split; [reflexivity|split; [intros _; right; reflexivity|reflexivity]]|]);
+    destruct (wire_some o E) as (c0 & ri & Hc & Hw);
+    unfold recv_http; cbn [r_auth r_enc r_post r_ct r_body read_content_type negb];
+    rewrite (export_nonempty (Npos q) o) by (try reflexivity; assumption); rewrite Hw;
+    (split; [reflexivity|]); cbn [snd write_error write_status_response rs_status fst];
+    (split; [intros E2; exfalso; pose proof (http_status_of_code_not_2xx c0) as N2; rewrite E2 in N2; discriminate
+            |intros [E2|E2]; [discriminate|congruence]]).
 Qed.
